@@ -18,6 +18,7 @@ pub fn replay_file(path: &str) -> i32 {
     println!("signature={}", v["signature"]);
     match d["kind"].as_str() {
         Some("engine_history") => replay_engine_history(d),
+        Some("opseq") => replay_opseq(d),
         _ => {
             println!("detail: {}", serde_json::to_string_pretty(d).unwrap());
             0
@@ -58,4 +59,26 @@ fn replay_engine_history(d: &Value) -> i32 {
     }
     println!("reported: {}", d["what"]);
     0
+}
+
+fn replay_opseq(d: &Value) -> i32 {
+    let g = GrammarSpec::from_json(&d["grammar"]);
+    let vocab = VocabSpec::from_json(&d["vocab"]);
+    let slices = Slices::from_json(&d["slices"]);
+    let f = Factory::new(&vocab, &slices).unwrap();
+    println!("grammar: {}", g.short());
+    println!("vocab: {} ({} tokens, canonical={}): {:?}", vocab.name, vocab.n(), vocab.canonical, vocab.tokens.iter().map(|t| show(t)).collect::<Vec<_>>());
+    let ops: Vec<String> = d["ops"].as_array().unwrap().iter().map(|x| x.as_str().unwrap().to_string()).collect();
+    let (got, exp, hist) = crate::opseq::replay_ops(&f, &g, vocab.canonical, &ops);
+    println!("logical history: {:?}", hist);
+    println!("subject : {:?}", got);
+    println!("fresh   : {:?}", exp);
+    if Some(&got) != exp.as_ref() {
+        println!("REPRODUCED: subject differs from the fresh engine");
+        1
+    } else {
+        println!("not reproduced at the final state (the artefact may describe a query result; see 'what')");
+        println!("reported: {}", d["what"]);
+        0
+    }
 }
